@@ -36,7 +36,7 @@ def _case_opts(rng, name, d, nr, nc, kind):
         opts.setdefault('params', {})['random_state'] = 7
         if base_name(name) in ('Louvain', 'Leiden', 'LouvainHierarchy', 'LouvainIteration', 'LouvainEmbedding'):
             opts['params']['shuffle_nodes'] = rng.random() < 0.5
-    if name == 'GNNClassifier':
+    if name.startswith('GNNClassifier'):
         opts = cases.gnn_opts(rng, nr)
     if name == 'get_dag':
         opts['order'] = [rng.randint(-1, 3) for _ in range(nr)]
@@ -124,7 +124,7 @@ def run(ctx, scratch):
                     opts.setdefault('params', {})['random_state'] = 7
                     if base_name(name) in ('Louvain', 'Leiden', 'LouvainHierarchy', 'LouvainIteration', 'LouvainEmbedding'):
                         opts['params']['shuffle_nodes'] = rng.random() < 0.5
-                if name == 'GNNClassifier':
+                if name.startswith('GNNClassifier'):
                     opts = cases.gnn_opts(rng, nr)
                 if name == 'get_dag':
                     opts['order'] = [rng.randint(-1, 3) for _ in range(nr)]
@@ -157,6 +157,10 @@ def run(ctx, scratch):
                     if 'ok' not in base:
                         continue
                     _mod(ctx, name, out, s2, opts, fmt + '/' + dt)
+                    if name == 'GNNClassifier[sage]' and fmt in ('csr_unsorted', 'csr_shuffled'):
+                        # the neighbour sampler draws POSITIONS in each stored row: with another storage order the same draws
+                        # select other neighbours, an equally valid sample (only the argument snapshot is judged here)
+                        continue
                     rt, at = (2e-3, 2e-4) if (name in ('PageRank[diteration]', 'PageRank[push]') and fmt in ('csr_unsorted', 'csr_shuffled')) else (1e-6, 1e-8)
                     bad = compare(base['ok'], out['ok'], rtol=rt, atol=at, skip_tags=skip)   # float32 sweep kernels: the sweep order follows the storage order
                     if base_name(name) in CLASSIFIERS:
